@@ -105,7 +105,7 @@ func runC06(t *testing.T, sci interface{}, keepLog bool) *hx.Outcome {
 		reads    int
 		cur      = baseNs
 		seg, inS int
-		lastRead = map[*simrt.Task]int64{} // first reading made by the task's current call (0 = none yet)
+		lastRead = map[*simrt.Task]int64{} // smallest reading made by the task's current call (0 = none yet): an implementation may read the clock more than once
 	)
 	nextReading := func() int64 {
 		if reads > 0 {
@@ -138,7 +138,7 @@ func runC06(t *testing.T, sci interface{}, keepLog bool) *hx.Outcome {
 		restore = snowflake.VerifSetConfig(epochMs, sc.NodeBits, sc.AtLowest)
 		s.Clock = func(tk *simrt.Task) time.Time {
 			r := nextReading()
-			if tk != nil && lastRead[tk] == 0 {
+			if tk != nil && (lastRead[tk] == 0 || r < lastRead[tk]) {
 				lastRead[tk] = r
 			}
 			if r < cur-1 {
